@@ -86,6 +86,10 @@ class CallMixin:
         for kw in node.keywords:
             if kw.arg == 'pattern':
                 pats = [self.ev(kw.value, st2)]
+        if not pats:
+            # explicit trigger markers T1(k) / T2(r, c) in the body (always-true predicates)
+            from .vals import find_triggers
+            pats = find_triggers(body, vs)
         if pats:
             return z3.ForAll(vs, body, patterns=[p if not isinstance(p, tuple) else z3.MultiPattern(*p) for p in pats])
         return z3.ForAll(vs, body)
@@ -287,6 +291,10 @@ class CallMixin:
             v = v.v
         if isinstance(v, (tuple, list, dict, str)):
             return len(v)
+        if isinstance(v, Ptr):
+            if v.oid is None:
+                return 0
+            return st.heap[v.oid].length
         if isinstance(v, Seq):
             return v.length
         if isinstance(v, Ref):
@@ -595,7 +603,10 @@ class CallMixin:
             st.heap[v.oid] = self.havoc_obj(obj, v.oid)
 
     def fresh_result(self, c, st):
-        return self.make_value(c.returns, 'ret_' + c.name.split('::')[-1].split('.')[-1], st)
+        r = self.make_value(c.returns, 'ret_' + c.name.split('::')[-1].split('.')[-1], st)
+        if c.lang == 'c' and c.returns == 'int':
+            st.assume(z3.And(r >= -2 ** 63, r <= 2 ** 63 - 1))     # a C idx_t value
+        return r
 
     def make_value(self, desc, name, st):
         """Fresh symbolic value of a type descriptor (see Program.build_param)."""
